@@ -308,6 +308,40 @@ def proxy_twin(pi: int, ai: int, pr: int, a1: int, a2: int, s1: int, s2: int, en
     return not (pi == 0 and pr == 0 and a1 == 0 and a2 == 0 and s1 == 6 and s2 == 0)
 
 
+# ---- 3b. a PROXY line must not buy trust for forwarded headers ------------------------------------------------------------
+from gunicorn.http.parser import RequestParser  # noqa: E402
+SRC = ["127.0.0.1", "203.0.113.7", "10.0.0.1"]
+
+
+def proxy_then_forwarded(pi: int, fai: int, pai: int, si: int) -> bool:
+    """
+    pre: 0 <= pi <= 1 and 0 <= fai <= 2 and 0 <= pai <= 2 and 0 <= si <= 2
+    post: __return__
+    """
+    # the whole head through the real RequestParser: PROXY line naming a client address + scheme / SCRIPT_NAME headers.
+    # Whether those headers are believed depends on the CONNECTION's peer and forwarded_allow_ips only - never on the
+    # address the PROXY line declares (anyone allowed to send a PROXY line could otherwise name a trusted address).
+    pi, fai, pai, si = pick(pi, 0, 1), pick(fai, 0, 2), pick(pai, 0, 2), pick(si, 0, 2)
+    peer = PEERS[pi]
+    fallow = [[], ["127.0.0.1"], ["*"]][fai]
+    pallow = [["127.0.0.1"], ["10.0.0.1"], ["*"]][pai]
+    cfg = CFG(header_map=CASE["header_map"], forwarded_allow_ips=fallow, proxy_protocol=True, proxy_allow_ips=pallow,
+              secure_scheme_headers={"X-FORWARDED-PROTO": "https"}, forwarder_headers=["SCRIPT_NAME"], workers=1, errorlog="-")
+    data = ("PROXY TCP4 %s 10.9.9.9 4242 80\r\nGET /app/x HTTP/1.1\r\nHost: h\r\nX-Forwarded-Proto: https\r\n"
+            "Script_Name: /app\r\n\r\n" % SRC[si]).encode()
+    try:
+        req = next(RequestParser(cfg, iter([data]), peer))
+    except (ForbiddenProxyRequest, InvalidProxyLine, InvalidHeaderName):
+        return True
+    resp, environ = wsgi.create(req, RecSock(), peer, ("127.0.0.1", 8000), cfg)
+    trusted = ("*" in fallow) or (peer[0] in fallow)
+    if environ["wsgi.url_scheme"] != ("https" if trusted else "http"):
+        return False
+    if (environ["SCRIPT_NAME"] == "/app") != trusted:
+        return False
+    return environ["REMOTE_ADDR"] == SRC[si]
+
+
 # ---- 4. persistence across keep-alive ----------------------------------------------------------------------------------
 def persist(nreq: int, second_has_host: bool) -> bool:
     """
@@ -380,6 +414,10 @@ OBLIGATIONS = [
        bound="gate: 5 peers x 4 proxy_allow_ips x proxy_protocol on/off x request number 1|2 x {valid TCP4, valid TCP6, bad address, "
              "unknown proto}; line: proto{TCP4,TCP6,UNKNOWN,tcp4} x source address from 6 spellings x destination {same, 'x'} x source "
              "port from 7 spellings x destination port from 3, from a listed and an unlisted peer"),
+    Ob("C08.proxy_then_forwarded", "proxy_then_forwarded", cases=[{"header_map": "drop"}, {"header_map": "refuse"}], timeout=900,
+       bound="real RequestParser on a PROXY line + secure-scheme + SCRIPT_NAME headers: peer {127.0.0.1, 10.0.0.1} x "
+             "forwarded_allow_ips {[], [127.0.0.1], [*]} x proxy_allow_ips {[127.0.0.1], [10.0.0.1], [*]} x declared source address "
+             "{127.0.0.1, 203.0.113.7, 10.0.0.1}"),
     Ob("C08.proxy.twin", "proxy_twin", cases=[{"part": "gate"}, {"part": "line"}], expect="refute", timeout=300),
     Ob("C08.persist", "persist", cases=[{"kind": "gthread"}, {"kind": "async"}], timeout=600,
        bound="1..3 requests on one keep-alive connection after a PROXY line, real handle() of gthread and async-base"),
